@@ -59,13 +59,18 @@ theorem canTy_iff (Γ : Env) : ∀ (e : Expr) (t : BTy), canTy Γ e t = true ↔
     cases Γ.lookupVal x with
     | none => simp
     | some v => simp
-  | .app f q args, t => by
+  | .app f q args keys, t => by
     simp only [canTy, CanTy, List.any_eq_true, Bool.and_eq_true, beq_iff_eq]
     constructor
-    · rintro ⟨m, hm, hr, ha⟩
-      exact ⟨m, hm, hr, (canTyArgs_iff Γ args m.sig.args).1 ha⟩
-    · rintro ⟨m, hm, hr, ha⟩
-      exact ⟨m, hm, hr, (canTyArgs_iff Γ args m.sig.args).2 ha⟩
+    · rintro ⟨hk, m, hm, hr, ha⟩
+      refine ⟨hk, m, hm, hr, ?_⟩
+      split at ha
+      · next ts hs => exact ⟨ts, hs, (canTyArgs_iff Γ args ts).1 ha⟩
+      · cases ha
+    · rintro ⟨hk, m, hm, hr, ts, hs, ha⟩
+      refine ⟨hk, m, hm, hr, ?_⟩
+      rw [hs]
+      exact (canTyArgs_iff Γ args ts).2 ha
 theorem canTyArgs_iff (Γ : Env) : ∀ (as : List Expr) (ts : List BTy),
     canTyArgs Γ as ts = true ↔ CanTyArgs Γ as ts
   | [], [] => by simp [canTyArgs, CanTyArgs]
@@ -124,15 +129,28 @@ theorem filter_eq_singleton_iff {α : Type} (p : α → Bool) (m : α) :
           simp only [List.cons_append, List.cons.injEq] at hl
           exact ⟨ys, l₂, hl.2, hm, fun z hz => h1 z (by simp [hz]), h2⟩
 
+theorem fits_iff (Γ : Env) (args : List Expr) (keys : List String) (σ : Sig) :
+    fits Γ args keys σ = true ↔ ∃ ts, σ.shape args.length keys = .ok ts ∧ CanTyArgs Γ args ts := by
+  unfold fits
+  constructor
+  · intro h
+    split at h
+    · next ts hs => exact ⟨ts, hs, (canTyArgs_iff Γ args ts).1 h⟩
+    · cases h
+  · rintro ⟨ts, hs, h⟩
+    rw [hs]
+    exact (canTyArgs_iff Γ args ts).2 h
+
 theorem candidates_singleton_iff (Γ : Env) (f : String) (q : Option String) (args : List Expr)
-    (t : BTy) (m : Meaning) :
-    candidates Γ f q args t = [m] ↔
-      OnlyOne (fun m => m.sig.res = t ∧ CanTyArgs Γ args m.sig.args) (meanings Γ f q) m := by
-  have hp : ∀ x : Meaning, (x.sig.res == t && canTyArgs Γ args x.sig.args) = true ↔
-      (x.sig.res = t ∧ CanTyArgs Γ args x.sig.args) := by
-    intro x; simp [canTyArgs_iff]
-  have hn : ∀ x : Meaning, (x.sig.res == t && canTyArgs Γ args x.sig.args) = false ↔
-      ¬ (x.sig.res = t ∧ CanTyArgs Γ args x.sig.args) := by
+    (keys : List String) (t : BTy) (m : Meaning) :
+    candidates Γ f q args keys t = [m] ↔
+      OnlyOne (fun m => m.sig.res = t ∧
+                 ∃ ts, m.sig.shape args.length keys = .ok ts ∧ CanTyArgs Γ args ts) (meanings Γ f q) m := by
+  have hp : ∀ x : Meaning, (x.sig.res == t && fits Γ args keys x.sig) = true ↔
+      (x.sig.res = t ∧ ∃ ts, x.sig.shape args.length keys = .ok ts ∧ CanTyArgs Γ args ts) := by
+    intro x; simp [fits_iff]
+  have hn : ∀ x : Meaning, (x.sig.res == t && fits Γ args keys x.sig) = false ↔
+      ¬ (x.sig.res = t ∧ ∃ ts, x.sig.shape args.length keys = .ok ts ∧ CanTyArgs Γ args ts) := by
     intro x; rw [← hp x]; simp
   unfold candidates OnlyOne
   rw [filter_eq_singleton_iff]
@@ -153,19 +171,27 @@ theorem checkTD_ok_iff (Γ : Env) : ∀ (e : Expr) (site : Site) (t : BTy),
     cases Γ.lookupVal x with
     | none => simp
     | some v => by_cases h : v.ty = t <;> simp [h]
-  | .app f q args, site, t => by
+  | .app f q args keys, site, t => by
     simp only [checkTD, WT]
     constructor
     · intro h
       split at h
       · cases h
-      · next m hc =>
-        exact ⟨m, (candidates_singleton_iff Γ f q args t m).1 hc,
-               (checkTDArgs_ok_iff Γ args site 0 m.sig.args).1 h⟩
-      · cases h
-    · rintro ⟨m, ho, hw⟩
-      rw [(candidates_singleton_iff Γ f q args t m).2 ho]
-      exact (checkTDArgs_ok_iff Γ args site 0 m.sig.args).2 hw
+      · next hk =>
+        split at h
+        · cases h
+        · next m hc =>
+          split at h
+          · next ts hs =>
+            exact ⟨by simpa using hk, m, (candidates_singleton_iff Γ f q args keys t m).1 hc, ts, hs,
+                   (checkTDArgs_ok_iff Γ args site 0 ts).1 h⟩
+          · cases h
+        · cases h
+    · rintro ⟨hk, m, ho, ts, hs, hw⟩
+      simp only [hk, Bool.not_true, Bool.false_eq_true, if_false]
+      rw [(candidates_singleton_iff Γ f q args keys t m).2 ho]
+      simp only [hs]
+      exact (checkTDArgs_ok_iff Γ args site 0 ts).2 hw
 theorem checkTDArgs_ok_iff (Γ : Env) : ∀ (as : List Expr) (site : Site) (i : Nat) (ts : List BTy),
     checkTDArgs Γ site i as ts = .ok () ↔ WTArgs Γ as ts
   | [], site, i, [] => by simp [checkTDArgs, WTArgs]
@@ -183,10 +209,10 @@ mutual
 theorem WT_CanTy (Γ : Env) : ∀ (e : Expr) (t : BTy), WT Γ e t → CanTy Γ e t
   | .lit t0 n, t => by simp [WT, CanTy]
   | .var x, t => by simp [WT, CanTy]
-  | .app f q args, t => by
+  | .app f q args keys, t => by
     simp only [WT, CanTy]
-    rintro ⟨m, ⟨l₁, l₂, hl, hm, _, _⟩, _⟩
-    exact ⟨m, by simp [hl], hm.1, hm.2⟩
+    rintro ⟨hk, m, ⟨l₁, l₂, hl, hm, _, _⟩, _⟩
+    exact ⟨hk, m, by simp [hl], hm.1, hm.2⟩
 end
 
 theorem typeable_iff (Γ : Env) (e : Expr) : typeable Γ e = true ↔ ∃ t, CanTy Γ e t := by
@@ -231,6 +257,22 @@ theorem checkStmt_ok_iff (Γ : Env) (ret : Option BTy) (site : Site) (s : Stmt) 
     cases ret with
     | none => simp
     | some r => simp [checkExpr_ok_iff]
+  | value e =>
+    simp only [checkStmt, StmtWT]
+    cases ret with
+    | none => simp
+    | some r => simp [checkExpr_ok_iff]
+  | exit c e =>
+    simp only [checkStmt, StmtWT]
+    cases ret with
+    | none => simp
+    | some r =>
+      cases Γ.lookupVal c with
+      | none => simp
+      | some v =>
+        by_cases hb : v.ty = .bool
+        · simp [hb, checkExpr_ok_iff]
+        · simp [hb]
 
 theorem forall_mem_iff_getElem {α : Type} (l : List α) (P : α → Prop) :
     (∀ x ∈ l, P x) ↔ ∀ j (h : j < l.length), P l[j] := by
@@ -263,7 +305,7 @@ theorem checkFun_ok_iff (Γ : Env) (site : Site) (d : FunDef) :
     simp [he]
 
 theorem covers_iff (defs : List FunDef) (sigs : List Sig) :
-    covers defs sigs = true ↔ ∀ σ ∈ sigs, ∃ d ∈ defs, d.sig = σ := by
+    covers defs sigs = true ↔ ∀ σ ∈ sigs, ∃ d ∈ defs, implements d.sig σ = true := by
   simp [covers]
 
 theorem checkAdd_ok_iff (g : GEnv) (site : Site) (param : Option (String × String)) (c : String)
@@ -355,24 +397,50 @@ theorem canTyArgs_false_of_untypeable (Γ : Env) (as : List Expr) (ts : List BTy
     have := canTy_typeable (hall i hi (by omega))
     rw [hu] at this; cases this
 
-theorem app_untypeable_of_arg (Γ : Env) (f : String) (q : Option String) (as : List Expr)
-    (h : ∃ x ∈ as, typeable Γ x = false) : typeable Γ (.app f q as) = false := by
+theorem canTy_app (Γ : Env) (f : String) (q : Option String) (as : List Expr) (keys : List String)
+    (t : BTy) : canTy Γ (.app f q as keys) t =
+      (keysFree Γ keys && (meanings Γ f q).any (fun m => m.sig.res == t && fits Γ as keys m.sig)) := by
+  simp only [canTy, fits]
+
+theorem canTy_app_true {Γ : Env} {f : String} {q : Option String} {as : List Expr} {keys : List String}
+    {t : BTy} (h : canTy Γ (.app f q as keys) t = true) :
+    keysFree Γ keys = true ∧ ∃ m ∈ meanings Γ f q, m.sig.res = t ∧ fits Γ as keys m.sig = true := by
+  rw [canTy_app, Bool.and_eq_true] at h
+  obtain ⟨hk, ha⟩ := h
+  obtain ⟨m, hm, hm2⟩ := List.any_eq_true.1 ha
+  simp only [Bool.and_eq_true, beq_iff_eq] at hm2
+  exact ⟨hk, m, hm, hm2.1, hm2.2⟩
+
+theorem fits_false_of_untypeable (Γ : Env) (as : List Expr) (keys : List String) (σ : Sig)
+    (h : ∃ x ∈ as, typeable Γ x = false) : fits Γ as keys σ = false := by
+  unfold fits
+  split
+  · exact canTyArgs_false_of_untypeable Γ as _ h
+  · rfl
+
+/-- an application none of whose meanings fits the arguments has no type -/
+theorem app_untypeable_of_no_meaning (Γ : Env) (f : String) (q : Option String) (as : List Expr)
+    (keys : List String) (h : ∀ m ∈ meanings Γ f q, fits Γ as keys m.sig = false) :
+    typeable Γ (.app f q as keys) = false := by
   rw [typeable_false_iff]
   intro t
-  simp only [canTy]
-  cases hc : (meanings Γ f q).any (fun m => m.sig.res == t && canTyArgs Γ as m.sig.args) with
+  cases hc : canTy Γ (.app f q as keys) t with
   | false => rfl
   | true =>
-    obtain ⟨m, _, hm⟩ := List.any_eq_true.1 hc
-    rw [canTyArgs_false_of_untypeable Γ as _ h] at hm
-    simp at hm
+    obtain ⟨_, m, hm, _, hf⟩ := canTy_app_true hc
+    rw [h m hm] at hf; cases hf
+
+theorem app_untypeable_of_arg (Γ : Env) (f : String) (q : Option String) (as : List Expr)
+    (keys : List String) (h : ∃ x ∈ as, typeable Γ x = false) :
+    typeable Γ (.app f q as keys) = false :=
+  app_untypeable_of_no_meaning Γ f q as keys (fun m _ => fits_false_of_untypeable Γ as keys m.sig h)
 
 theorem args_typeable_of_app {Γ : Env} {f : String} {q : Option String} {as : List Expr}
-    (h : typeable Γ (.app f q as) = true) : ∀ x ∈ as, typeable Γ x = true := by
+    {keys : List String} (h : typeable Γ (.app f q as keys) = true) : ∀ x ∈ as, typeable Γ x = true := by
   intro x hx
   cases hu : typeable Γ x with
   | true => rfl
-  | false => rw [app_untypeable_of_arg Γ f q as ⟨x, hx, hu⟩] at h; cases h
+  | false => rw [app_untypeable_of_arg Γ f q as keys ⟨x, hx, hu⟩] at h; cases h
 
 theorem explainArgs_none (Γ : Env) (site : Site) : ∀ (as : List Expr) (i : Nat),
     (∀ x ∈ as, typeable Γ x = true) → explainArgs Γ site i as = none
@@ -393,11 +461,11 @@ theorem bu_descend (Γ : Env) (F : Expr → Option Expr) (K : ErrKind)
     simp only [Expr.modAt] at hm
     obtain ⟨h1, h2⟩ := hF e e' hm ht
     exact ⟨h1, by simpa using h2 site⟩
-  | .app f q args, a :: π, e', site, ht, hm => by
+  | .app f q args keys, a :: π, e', site, ht, hm => by
     simp only [Expr.modAt, Option.map_eq_some_iff] at hm
     obtain ⟨args', hma, rfl⟩ := hm
     obtain ⟨hu, hx⟩ := bu_descend_args Γ F K hF args a π args' site 0 (args_typeable_of_app ht) hma
-    refine ⟨app_untypeable_of_arg Γ f q args' hu, ?_⟩
+    refine ⟨app_untypeable_of_arg Γ f q args' keys hu, ?_⟩
     simp only [explain, hx, Nat.zero_add]
   | .lit _ _, _ :: _, _, _, _, hm => by simp [Expr.modAt] at hm
   | .var _, _ :: _, _, _, _, hm => by simp [Expr.modAt] at hm
@@ -429,29 +497,58 @@ end
 theorem typeable_lit (Γ : Env) (t : BTy) (n : Nat) : typeable Γ (.lit t n) = true :=
   canTy_typeable (t := t) (by simp [canTy])
 
-/-- a typeable application has a meaning of the right arity -/
+/-- a typeable application has free keywords and a meaning whose shape fits the call -/
 theorem app_typeable_meaning {Γ : Env} {f : String} {q : Option String} {as : List Expr}
-    (h : typeable Γ (.app f q as) = true) :
-    ∃ m ∈ meanings Γ f q, m.sig.args.length = as.length := by
+    {keys : List String} (h : typeable Γ (.app f q as keys) = true) :
+    keysFree Γ keys = true ∧
+    ∃ m ∈ meanings Γ f q, ∃ ts, m.sig.shape as.length keys = .ok ts ∧ canTyArgs Γ as ts = true := by
   unfold typeable at h
   obtain ⟨t, _, hc⟩ := List.any_eq_true.1 h
-  simp only [canTy] at hc
-  obtain ⟨m, hm, hm2⟩ := List.any_eq_true.1 hc
-  simp only [Bool.and_eq_true] at hm2
-  exact ⟨m, hm, ((canTyArgs_iff_forall Γ as _).1 hm2.2).1.symm⟩
+  obtain ⟨hk, m, hm, _, hf⟩ := canTy_app_true hc
+  refine ⟨hk, m, hm, ?_⟩
+  unfold fits at hf
+  split at hf
+  · next ts hs => exact ⟨ts, hs, hf⟩
+  · cases hf
 
-theorem app_untypeable_of_no_meaning (Γ : Env) (f : String) (q : Option String) (as : List Expr)
-    (h : ∀ m ∈ meanings Γ f q, canTyArgs Γ as m.sig.args = false) :
-    typeable Γ (.app f q as) = false := by
-  rw [typeable_false_iff]
-  intro t
-  simp only [canTy]
-  cases hc : (meanings Γ f q).any (fun m => m.sig.res == t && canTyArgs Γ as m.sig.args) with
-  | false => rfl
-  | true =>
-    obtain ⟨m, hm, hm2⟩ := List.any_eq_true.1 hc
-    rw [h m hm] at hm2
-    simp at hm2
+theorem fits_false_of_shape {Γ : Env} {as : List Expr} {keys : List String} {σ : Sig}
+    (h : (σ.shape as.length keys).isOk = false) : fits Γ as keys σ = false := by
+  unfold fits
+  split
+  · next ts hs => rw [hs] at h; cases h
+  · rfl
+
+/-- all meanings reject the form of the call for the same reason `R` -/
+theorem explain_allShape (Γ : Env) (f : String) (q : Option String) (as : List Expr) (keys : List String)
+    (R : Shape) (hmem : ∀ x ∈ as, typeable Γ x = true) (hkf : keysFree Γ keys = true)
+    (hne : meanings Γ f q ≠ []) (hall : allShape Γ f q as.length keys R = true) (hR : R.isOk = false) :
+    typeable Γ (.app f q as keys) = false ∧ ∀ st, explain Γ st (.app f q as keys) = ⟨shapeErr R, st⟩ := by
+  have hs : ∀ m ∈ meanings Γ f q, m.sig.shape as.length keys = R := by
+    intro m hm
+    have := List.all_eq_true.1 hall m hm
+    simpa using this
+  refine ⟨?_, fun st => ?_⟩
+  · apply app_untypeable_of_no_meaning
+    intro m hm
+    exact fits_false_of_shape (by rw [hs m hm]; exact hR)
+  · simp only [explain, explainArgs_none Γ st _ 0 hmem, hkf, Bool.not_true, Bool.false_eq_true, if_false]
+    cases hl : meanings Γ f q with
+    | nil => exact absurd hl hne
+    | cons m ms =>
+      have hall' : (m :: ms).all (fun x => !(x.sig.shape as.length keys).isOk) = true := by
+        apply List.all_eq_true.2
+        intro x hx
+        rw [hs x (by rw [hl]; exact hx), hR]; rfl
+      simp only [hall', if_true]
+      rw [hs m (by rw [hl]; simp)]
+
+theorem mem_take_append_drop {α : Type} {l mid : List α} {i j : Nat} {x : α}
+    (h : x ∈ l.take i ++ mid ++ l.drop j) : x ∈ l ∨ x ∈ mid := by
+  simp only [List.mem_append] at h
+  rcases h with (h | h) | h
+  · exact Or.inl (List.mem_of_mem_take h)
+  · exact Or.inr h
+  · exact Or.inl (List.mem_of_mem_drop h)
 
 theorem mutExpr_bu (k : Kind) (hk : k ≠ .ambiguous) (Γ : Env) (N N' : Expr)
     (hm : mutExpr k Γ N = some N') (ht : typeable Γ N = true) :
@@ -470,13 +567,11 @@ theorem mutExpr_bu (k : Kind) (hk : k ≠ .ambiguous) (Γ : Env) (N N' : Expr)
       rw [Option.isNone_iff_eq_none] at hy
       simp [canTy, hy]
     · cases hm
-  | app f q args =>
+  | app f q args keys =>
     have hargs := args_typeable_of_app ht
-    obtain ⟨m0, hm0, hlen0⟩ := app_typeable_meaning ht
-    have hne : (meanings Γ f q).isEmpty = false := by
-      cases hl : meanings Γ f q with
-      | nil => rw [hl] at hm0; cases hm0
-      | cons _ _ => rfl
+    obtain ⟨hkf, m0, hm0, ts0, hs0, hc0⟩ := app_typeable_meaning ht
+    have hne : meanings Γ f q ≠ [] := by
+      intro hl; rw [hl] at hm0; cases hm0
     cases k with
     | ambiguous => exact absurd rfl hk
     | assignConst c => simp [mutExpr] at hm
@@ -496,64 +591,56 @@ theorem mutExpr_bu (k : Kind) (hk : k ≠ .ambiguous) (Γ : Env) (N N' : Expr)
         refine ⟨?_, fun st => ?_⟩
         · apply app_untypeable_of_no_meaning
           intro m hm
-          cases hc : canTyArgs Γ (args.set a (.lit t 0)) m.sig.args with
-          | false => rfl
-          | true =>
-            obtain ⟨hl, hi⟩ := (canTyArgs_iff_forall Γ _ _).1 hc
-            rw [List.length_set] at hl
-            have h1 := hi a (by rw [List.length_set]; exact ha) (by omega)
-            simp only [List.getElem_set_self, canTy, beq_iff_eq] at h1
-            have := List.all_eq_true.1 hall m hm
-            simp only [Bool.or_eq_true, bne_iff_ne, ne_eq] at this
-            rcases this with h | h
-            · exact absurd hl.symm h
-            · exact absurd (by rw [List.getElem?_eq_getElem (by omega), h1]) h
-        · simp only [explain, explainArgs_none Γ st _ 0 hmem, hne, Bool.false_eq_true, if_false,
-            expectedKind]
-          have : (meanings Γ f q).all (fun m => m.sig.args.length != (args.set a (.lit t 0)).length) = false := by
-            apply Bool.eq_false_iff.2
-            intro hall'
-            have := List.all_eq_true.1 hall' m0 hm0
-            simp [List.length_set, hlen0] at this
-          simp only [this, Bool.false_eq_true, if_false]
+          unfold fits
+          rw [List.length_set]
+          split
+          · next ts hs =>
+            cases hc : canTyArgs Γ (args.set a (.lit t 0)) ts with
+            | false => rfl
+            | true =>
+              obtain ⟨hl, hi⟩ := (canTyArgs_iff_forall Γ _ _).1 hc
+              rw [List.length_set] at hl
+              have h1 := hi a (by rw [List.length_set]; exact ha) (by omega)
+              simp only [List.getElem_set_self, canTy, beq_iff_eq] at h1
+              have := List.all_eq_true.1 hall m hm
+              rw [hs] at this
+              simp only [bne_iff_ne, ne_eq] at this
+              exact absurd (by rw [List.getElem?_eq_getElem (by omega), h1]) this
+          · rfl
+        · simp only [explain, explainArgs_none Γ st _ 0 hmem, hkf, Bool.not_true, Bool.false_eq_true,
+            if_false, expectedKind, List.length_set]
+          cases hl : meanings Γ f q with
+          | nil => exact absurd hl hne
+          | cons m ms =>
+            have : (m :: ms).all (fun x => !(x.sig.shape args.length keys).isOk) = false := by
+              apply Bool.eq_false_iff.2
+              intro hall'
+              have := List.all_eq_true.1 hall' m0 (by rw [← hl]; exact hm0)
+              rw [hs0] at this
+              simp [Shape.isOk] at this
+            simp only [this, Bool.false_eq_true, if_false]
       · cases hm
     | wrongArgCount more =>
-      have key : ∀ args' : List Expr, (∀ x ∈ args', typeable Γ x = true) →
-          (meanings Γ f q).all (fun m => m.sig.args.length != args'.length) = true →
-          typeable Γ (.app f q args') = false ∧
-            ∀ st, explain Γ st (.app f q args') = ⟨expectedKind (.wrongArgCount more), st⟩ := by
-        intro args' hmem hall
-        refine ⟨?_, fun st => ?_⟩
-        · apply app_untypeable_of_no_meaning
-          intro m hm
-          cases hc : canTyArgs Γ args' m.sig.args with
-          | false => rfl
-          | true =>
-            obtain ⟨hl, _⟩ := (canTyArgs_iff_forall Γ _ _).1 hc
-            have := List.all_eq_true.1 hall m hm
-            simp only [bne_iff_ne, ne_eq] at this
-            exact absurd hl.symm this
-        · simp only [explain, explainArgs_none Γ st _ 0 hmem, hne, Bool.false_eq_true, if_false,
-            expectedKind, hall, if_true]
       cases more with
       | true =>
         simp only [mutExpr, if_true] at hm
         split at hm
         · next hc =>
           cases hm
-          refine key _ ?_ hc.2
-          intro x hx
-          simp only [List.mem_append, List.mem_singleton] at hx
-          rcases hx with h | h
-          · exact hargs x h
-          · rw [h]; exact typeable_lit Γ _ 0
+          have := explain_allShape Γ f q _ keys .count (fun x hx => by
+            rcases mem_take_append_drop hx with h | h
+            · exact hargs x h
+            · simp only [List.mem_singleton] at h; rw [h]; exact typeable_lit Γ _ 0) hkf hne hc.2.2 rfl
+          simpa [expectedKind, shapeErr] using this
         · cases hm
       | false =>
         simp only [mutExpr, Bool.false_eq_true, if_false] at hm
         split at hm
         · next hc =>
           cases hm
-          exact key _ (fun x hx => hargs x (List.dropLast_subset _ hx)) hc.2
+          have := explain_allShape Γ f q _ keys .count
+            (fun x hx => hargs x (List.mem_of_mem_eraseIdx hx)) hkf hne hc.2.2 rfl
+          simpa [expectedKind, shapeErr] using this
         · cases hm
     | undefinedName y =>
       simp only [mutExpr] at hm
@@ -566,7 +653,7 @@ theorem mutExpr_bu (k : Kind) (hk : k ≠ .ambiguous) (Γ : Env) (N N' : Expr)
         · apply app_untypeable_of_no_meaning
           intro m hm; rw [hnil] at hm; cases hm
         · simp only [Bool.not_eq_true'] at hp
-          simp [explain, explainArgs_none Γ st _ 0 hargs, he, hp, expectedKind]
+          simp [explain, explainArgs_none Γ st _ 0 hargs, hkf, hnil, hp, expectedKind]
       · cases hm
     | paramLacksOp y =>
       simp only [mutExpr] at hm
@@ -578,7 +665,96 @@ theorem mutExpr_bu (k : Kind) (hk : k ≠ .ambiguous) (Γ : Env) (N N' : Expr)
         refine ⟨?_, fun st => ?_⟩
         · apply app_untypeable_of_no_meaning
           intro m hm; rw [hnil] at hm; cases hm
-        · simp [explain, explainArgs_none Γ st _ 0 hargs, he, hp, expectedKind]
+        · simp [explain, explainArgs_none Γ st _ 0 hargs, hkf, hnil, hp, expectedKind]
+      · cases hm
+    | unknownKeyword y =>
+      have key : ∀ keys' : List String, (∀ x ∈ keys', x = y ∨ x ∈ keys) → (Γ.lookupVal y).isNone = true →
+          allShape Γ f q args.length keys' .unknownKw = true →
+          typeable Γ (.app f q args keys') = false ∧
+            ∀ st, explain Γ st (.app f q args keys') = ⟨expectedKind (.unknownKeyword y), st⟩ := by
+        intro keys' hsub hy hall
+        have hkf' : keysFree Γ keys' = true := by
+          unfold keysFree at hkf ⊢
+          apply List.all_eq_true.2
+          intro x hx
+          rcases hsub x hx with h | h
+          · rw [h]; exact hy
+          · exact List.all_eq_true.1 hkf x h
+        have := explain_allShape Γ f q args keys' .unknownKw hargs hkf' hne hall rfl
+        simpa [expectedKind, shapeErr] using this
+      cases hke : keys.isEmpty with
+      | true =>
+        simp only [mutExpr, hke, if_true] at hm
+        split at hm
+        · next hc =>
+          cases hm
+          exact key [y] (fun x hx => Or.inl (by simpa using hx)) hc.2.1 hc.2.2
+        · cases hm
+      | false =>
+        simp only [mutExpr, hke, Bool.false_eq_true, if_false] at hm
+        split at hm
+        · next hc =>
+          cases hm
+          refine key _ (fun x hx => ?_) hc.2.1 hc.2.2
+          simp only [List.mem_append, List.mem_singleton] at hx
+          rcases hx with h | h
+          · exact Or.inr (List.dropLast_subset _ h)
+          · exact Or.inl h
+        · cases hm
+    | tooManyPositional =>
+      simp only [mutExpr] at hm
+      split at hm
+      · next m0' ms hl =>
+        split at hm
+        · next hc =>
+          cases hm
+          have := explain_allShape Γ f q _ keys .count (fun x hx => by
+            rcases mem_take_append_drop hx with h | h
+            · exact hargs x h
+            · rw [List.eq_of_mem_replicate h]; exact typeable_lit Γ _ 0) hkf hne hc.2 rfl
+          simpa [expectedKind, shapeErr] using this
+        · cases hm
+      · cases hm
+    | keywordDupPositional =>
+      simp only [mutExpr] at hm
+      split at hm
+      · next m0' ms hl =>
+        split at hm
+        · next p0 ps hp =>
+          split at hm
+          · next hc =>
+            cases hm
+            obtain ⟨_, hfree, hall⟩ := hc
+            have hkf' : keysFree Γ (keys ++ [p0.name]) = true := by
+              unfold keysFree at hkf ⊢
+              rw [List.all_append, hkf]
+              simpa using hfree
+            have := explain_allShape Γ f q (args ++ [.lit p0.ty 0]) _ .dupArg (fun x hx => by
+              simp only [List.mem_append, List.mem_singleton] at hx
+              rcases hx with h | h
+              · exact hargs x h
+              · rw [h]; exact typeable_lit Γ _ 0) hkf' hne (by simpa using hall) rfl
+            simpa [expectedKind, shapeErr] using this
+          · cases hm
+        · cases hm
+      · cases hm
+    | omitRequired =>
+      simp only [mutExpr] at hm
+      split at hm
+      · next m0' ms hl =>
+        split at hm
+        · next r hr =>
+          split at hm
+          · next hc =>
+            cases hm
+            have := explain_allShape Γ f q _ keys .count (fun x hx => by
+              simp only [List.mem_append] at hx
+              rcases hx with h | h
+              · exact hargs x (List.mem_of_mem_take h)
+              · exact hargs x (List.mem_of_mem_drop h)) hkf hne hc.2 rfl
+            simpa [expectedKind, shapeErr] using this
+          · cases hm
+        · cases hm
       · cases hm
 
 /-! ### descent to a node where the mutation makes the selection ambiguous (top-down fault) -/
@@ -594,28 +770,39 @@ theorem td_descend (Γ : Env) (F : Expr → Option Expr) (K : ErrKind)
     simp only [Expr.modAt] at hm
     obtain ⟨h1, h2⟩ := hF e e' hm
     exact ⟨h1, fun site t h => by simpa using h2 site t h⟩
-  | .app f q args, a :: π, e', hm => by
+  | .app f q args keys, a :: π, e', hm => by
     simp only [Expr.modAt, Option.map_eq_some_iff] at hm
     obtain ⟨args', hma, rfl⟩ := hm
-    obtain ⟨hc, hx⟩ := td_descend_args Γ F K hF args a π args' hma
-    have hcand : ∀ t, candidates Γ f q args' t = candidates Γ f q args t := by
-      intro t; unfold candidates; congr 1; funext m; rw [hc]
+    obtain ⟨hlen, hc, hx⟩ := td_descend_args Γ F K hF args a π args' hma
+    have hfit : ∀ σ, fits Γ args' keys σ = fits Γ args keys σ := by
+      intro σ; unfold fits; rw [hlen]
+      split
+      · exact hc _
+      · rfl
+    have hcand : ∀ t, candidates Γ f q args' keys t = candidates Γ f q args keys t := by
+      intro t; unfold candidates; congr 1; funext m; rw [hfit]
     refine ⟨?_, ?_⟩
-    · intro t; simp only [canTy]; congr 1; funext m; rw [hc]
+    · intro t; rw [canTy_app, canTy_app]; congr 2; funext m; rw [hfit]
     · intro site t h
-      simp only [checkTD, hcand] at h ⊢
+      simp only [checkTD, hcand, hlen] at h ⊢
       split at h
       · cases h
-      · next m hcm =>
-        simpa using hx site 0 m.sig.args h
-      · cases h
+      · next hkf =>
+        simp only [hkf]
+        split at h
+        · cases h
+        · next m hcm =>
+          split at h
+          · next ts hs => simpa using hx site 0 ts h
+          · cases h
+        · cases h
   | .lit _ _, _ :: _, _, hm => by simp [Expr.modAt] at hm
   | .var _, _ :: _, _, hm => by simp [Expr.modAt] at hm
 theorem td_descend_args (Γ : Env) (F : Expr → Option Expr) (K : ErrKind)
     (hF : ∀ N N', F N = some N' → (∀ t, canTy Γ N' t = canTy Γ N t) ∧
             ∀ st t, checkTD Γ st N t = .ok () → checkTD Γ st N' t = .error ⟨K, st⟩) :
     ∀ (as : List Expr) (a : Nat) (π : Site) (as' : List Expr), modArgs F a π as = some as' →
-      (∀ ts, canTyArgs Γ as' ts = canTyArgs Γ as ts) ∧
+      as'.length = as.length ∧ (∀ ts, canTyArgs Γ as' ts = canTyArgs Γ as ts) ∧
       ∀ site i ts, checkTDArgs Γ site i as ts = .ok () →
         checkTDArgs Γ site i as' ts = .error ⟨K, site ++ (i + a) :: π⟩
   | [], _, _, _, hm => by simp [modArgs] at hm
@@ -623,7 +810,7 @@ theorem td_descend_args (Γ : Env) (F : Expr → Option Expr) (K : ErrKind)
     simp only [modArgs, Option.map_eq_some_iff] at hm
     obtain ⟨e', hme, rfl⟩ := hm
     obtain ⟨h1, h2⟩ := td_descend Γ F K hF e π e' hme
-    refine ⟨?_, ?_⟩
+    refine ⟨by simp, ?_, ?_⟩
     · intro ts
       cases ts with
       | nil => simp [canTyArgs]
@@ -642,8 +829,8 @@ theorem td_descend_args (Γ : Env) (F : Expr → Option Expr) (K : ErrKind)
   | e :: es, a + 1, π, as', hm => by
     simp only [modArgs, Option.map_eq_some_iff] at hm
     obtain ⟨es', hme, rfl⟩ := hm
-    obtain ⟨h1, h2⟩ := td_descend_args Γ F K hF es a π es' hme
-    refine ⟨?_, ?_⟩
+    obtain ⟨hl, h1, h2⟩ := td_descend_args Γ F K hF es a π es' hme
+    refine ⟨by simp [hl], ?_, ?_⟩
     · intro ts
       cases ts with
       | nil => simp [canTyArgs]
@@ -678,7 +865,7 @@ theorem mutExpr_ambiguous (Γ : Env) (N N' : Expr) (hm : mutExpr .ambiguous Γ N
   cases N with
   | lit t n => simp [mutExpr] at hm
   | var x => simp [mutExpr] at hm
-  | app f q args =>
+  | app f q args keys =>
     simp only [mutExpr] at hm
     split at hm
     · next Q m0 mq hq =>
@@ -698,36 +885,40 @@ theorem mutExpr_ambiguous (Γ : Env) (N N' : Expr) (hm : mutExpr .ambiguous Γ N
         have hnne : meanings Γ f none ≠ [] := by
           intro h; rw [h] at h2; simp at h2
         have hpred : ∀ (t : BTy) (l : List Meaning), (∀ m ∈ l, m.sig = m0.sig) →
-            ∀ m ∈ l, (m.sig.res == t && canTyArgs Γ args m.sig.args) =
-                     (m0.sig.res == t && canTyArgs Γ args m0.sig.args) := by
+            ∀ m ∈ l, (m.sig.res == t && fits Γ args keys m.sig) =
+                     (m0.sig.res == t && fits Γ args keys m0.sig) := by
           intro t l hl m hm; rw [hl m hm]
         refine ⟨?_, ?_⟩
         · intro t
-          simp only [canTy]
+          rw [canTy_app, canTy_app]
           rw [any_const _ _ _ hnne (hpred t _ hns), any_const _ _ _ hqne (hpred t _ hqs)]
         · intro st t h
           simp only [checkTD] at h ⊢
-          have hp0 : (m0.sig.res == t && canTyArgs Γ args m0.sig.args) = true := by
-            split at h
-            · cases h
-            · next m hcm =>
-              have hmem : m ∈ candidates Γ f (some Q) args t := by rw [hcm]; simp
-              unfold candidates at hmem
-              obtain ⟨hmm, hmp⟩ := List.mem_filter.1 hmem
-              rw [← hpred t _ hqs m hmm]; exact hmp
-            · cases h
-          have hall : candidates Γ f none args t = meanings Γ f none := by
-            unfold candidates
-            apply List.filter_eq_self.2
-            intro m hm
-            rw [hpred t _ hns m hm]; exact hp0
-          rw [hall]
-          cases hl : meanings Γ f none with
-          | nil => exact absurd hl hnne
-          | cons x r =>
-            cases r with
-            | nil => rw [hl] at h2; simp at h2
-            | cons y r => rfl
+          split at h
+          · cases h
+          · next hkf =>
+            simp only [hkf]
+            have hp0 : (m0.sig.res == t && fits Γ args keys m0.sig) = true := by
+              split at h
+              · cases h
+              · next m hcm =>
+                have hmem : m ∈ candidates Γ f (some Q) args keys t := by rw [hcm]; simp
+                unfold candidates at hmem
+                obtain ⟨hmm, hmp⟩ := List.mem_filter.1 hmem
+                rw [← hpred t _ hqs m hmm]; exact hmp
+              · cases h
+            have hall : candidates Γ f none args keys t = meanings Γ f none := by
+              unfold candidates
+              apply List.filter_eq_self.2
+              intro m hm
+              rw [hpred t _ hns m hm]; exact hp0
+            rw [hall]
+            cases hl : meanings Γ f none with
+            | nil => exact absurd hl hnne
+            | cons x r =>
+              cases r with
+              | nil => rw [hl] at h2; simp at h2
+              | cons y r => rfl
       · cases hm
     · cases hm
 
@@ -783,15 +974,31 @@ theorem mutStmt_error (k : Kind) (Γ : Env) (ret : Option BTy) (site r : Site) (
           simp [checkStmt, hv, hc, expectedKind, Stmt.binding]
         · cases hm
       · cases hm
-    · next t e =>
+    · next _ t =>
       split at hm
       · next r =>
         split at hm
-        · next hne =>
+        · next hc =>
           cases hm
+          obtain ⟨hv, hne⟩ := hc
           have h1 : typeable Γ (.lit t 0) = true := typeable_lit Γ t 0
           have h2 : canTy Γ (.lit t 0) r = false := by simp [canTy, hne]
-          simp [checkStmt, checkExpr, h1, h2, expectedKind, Stmt.binding]
+          refine ⟨?_, Stmt.binding_setExpr s _⟩
+          cases s with
+          | defConst x t' e => simp [Stmt.isValuePos] at hv
+          | defVar x t' e => simp [Stmt.isValuePos] at hv
+          | assign x e => simp [Stmt.isValuePos] at hv
+          | ret e => simp [checkStmt, Stmt.setExpr, checkExpr, h1, h2, expectedKind]
+          | value e => simp [checkStmt, Stmt.setExpr, checkExpr, h1, h2, expectedKind]
+          | exit c e =>
+            simp only [checkStmt] at hok
+            cases hl : Γ.lookupVal c with
+            | none => rw [hl] at hok; cases hok
+            | some v =>
+              rw [hl] at hok
+              by_cases hb : v.ty = .bool
+              · simp [checkStmt, Stmt.setExpr, hl, hb, checkExpr, h1, h2, expectedKind]
+              · simp [hb] at hok
         · cases hm
       · cases hm
     · cases hm
@@ -823,6 +1030,26 @@ theorem mutStmt_error (k : Kind) (Γ : Env) (ret : Option BTy) (site r : Site) (
         cases ret with
         | none => cases hok
         | some r => exact mutExpr_checkExpr k Γ site _ e e' r π hok he
+      | value e =>
+        simp only [checkStmt, Stmt.setExpr] at hok ⊢
+        cases ret with
+        | none => cases hok
+        | some r => exact mutExpr_checkExpr k Γ site _ e e' r π hok he
+      | exit c e =>
+        simp only [checkStmt, Stmt.setExpr] at hok ⊢
+        cases ret with
+        | none => cases hok
+        | some r =>
+          simp only at hok ⊢
+          cases hl : Γ.lookupVal c with
+          | none => rw [hl] at hok; cases hok
+          | some v =>
+            rw [hl] at hok
+            simp only at hok ⊢
+            by_cases hb : v.ty = .bool
+            · simp only [hb, beq_self_eq_true, if_true] at hok ⊢
+              exact mutExpr_checkExpr k Γ site _ e e' r π hok he
+            · simp [hb] at hok
     cases k with
     | assignConst c => cases hm
     | wrongReturnType t => cases hm
@@ -844,6 +1071,22 @@ theorem mutStmt_error (k : Kind) (Γ : Env) (ret : Option BTy) (site r : Site) (
       obtain ⟨e', he, rfl⟩ := hm
       exact ⟨key e' he, Stmt.binding_setExpr s e'⟩
     | paramLacksOp y =>
+      simp only [Option.map_eq_some_iff] at hm
+      obtain ⟨e', he, rfl⟩ := hm
+      exact ⟨key e' he, Stmt.binding_setExpr s e'⟩
+    | unknownKeyword y =>
+      simp only [Option.map_eq_some_iff] at hm
+      obtain ⟨e', he, rfl⟩ := hm
+      exact ⟨key e' he, Stmt.binding_setExpr s e'⟩
+    | tooManyPositional =>
+      simp only [Option.map_eq_some_iff] at hm
+      obtain ⟨e', he, rfl⟩ := hm
+      exact ⟨key e' he, Stmt.binding_setExpr s e'⟩
+    | keywordDupPositional =>
+      simp only [Option.map_eq_some_iff] at hm
+      obtain ⟨e', he, rfl⟩ := hm
+      exact ⟨key e' he, Stmt.binding_setExpr s e'⟩
+    | omitRequired =>
       simp only [Option.map_eq_some_iff] at hm
       obtain ⟨e', he, rfl⟩ := hm
       exact ⟨key e' he, Stmt.binding_setExpr s e'⟩
@@ -934,7 +1177,7 @@ theorem FunDef.modStmt_error (k : Kind) (Γ : Env) (site r : Site) (d d' : FunDe
 theorem covers_congr (defs defs' : List FunDef) (sigs : List Sig)
     (h : defs'.map FunDef.sig = defs.map FunDef.sig) : covers defs' sigs = covers defs sigs := by
   have key : ∀ (ds : List FunDef) (σ : Sig),
-      ds.any (fun d => d.sig == σ) = (ds.map FunDef.sig).any (· == σ) := by
+      ds.any (fun d => implements d.sig σ) = (ds.map FunDef.sig).any (fun x => implements x σ) := by
     intro ds σ; rw [List.any_map]; rfl
   unfold covers
   congr 1; funext σ
